@@ -274,6 +274,78 @@ func lastTokenPos(n ast.Node) token.Pos {
 	return mx
 }
 
+// c04CommentFieldMultiline: a block comment that contains a line break as the End decoration of
+// the last Field of a receiver / type-parameter / parameter / result / func-type list (the
+// Comment-field path of applyDecorations: Field, ValueSpec, TypeSpec, ImportSpec): it must come
+// out exactly once, after the field and before the list's closing delimiter
+func c04CommentFieldMultiline(c *Ctx) {
+	type shape struct {
+		name, src string
+		list func(f *dst.File) *dst.FieldList
+	}
+	fd := func(f *dst.File) *dst.FuncDecl { return f.Decls[len(f.Decls)-1].(*dst.FuncDecl) }
+	shapes := []shape{
+		{"receiver", "package a\n\nfunc (r T) f(a int) {}\n", func(f *dst.File) *dst.FieldList { return fd(f).Recv }},
+		{"params", "package a\n\nfunc f(a int, b string) {}\n", func(f *dst.File) *dst.FieldList { return fd(f).Type.Params }},
+		{"results", "package a\n\nfunc f() (x int, err error) { return }\n", func(f *dst.File) *dst.FieldList { return fd(f).Type.Results }},
+		{"type-params", "package a\n\nfunc f[K comparable, V any](k K) {}\n", func(f *dst.File) *dst.FieldList { return fd(f).Type.TypeParams }},
+		{"func-type", "package a\n\nvar g func(a int, b string)\n", func(f *dst.File) *dst.FieldList {
+			return f.Decls[0].(*dst.GenDecl).Specs[0].(*dst.ValueSpec).Type.(*dst.FuncType).Params
+		}},
+	}
+	for _, sh := range shapes {
+		for _, text := range []string{"/*one*/", "/*x\ny*/", "/*x\n\ny\nz*/"} {
+			f, err := decorator.Parse(sh.src)
+			if err != nil {
+				continue
+			}
+			fl := sh.list(f)
+			last := fl.List[len(fl.List)-1]
+			last.Decs.End.Replace(text)
+			c.Res.Evaluations++
+			c.Res.hist("c04-kinds", "multi-line block comment at a Comment-field End point")
+			in := map[string]string{"src": sh.src, "edit": "End decoration of the last field of the " + sh.name + " list = " + text}
+			out, perr, pm := printDst(f)
+			if pm != "" || perr != nil {
+				c.Res.fail("c04-comment-field", fmt.Sprintf("printing failed: %v %s", perr, pm), in)
+				continue
+			}
+			seq := scanSeq(out)
+			want := "C:" + strings.Join(strings.Fields(text), " ")
+			at, n := -1, 0
+			for i, t := range seq {
+				if t == want {
+					at = i
+					n++
+				}
+			}
+			closer := ")"
+			if sh.name == "type-params" {
+				closer = "]"
+			}
+			// the tokens of the list, comments and commas removed: the comment sits before the closer of the list
+			ref := scanSeq(sh.src)
+			if n != 1 {
+				c.Res.fail("c04-comment-field", fmt.Sprintf("the comment is printed %d times:\n%s", n, out), in)
+				continue
+			}
+			var rest []string
+			for _, t := range seq {
+				if !strings.HasPrefix(t, "C:") {
+					rest = append(rest, t)
+				}
+			}
+			if strings.Join(rest, " ") != strings.Join(ref, " ") {
+				c.Res.fail("c04-comment-field", "the token stream changed:\n"+out, in)
+				continue
+			}
+			if at+1 >= len(seq) || seq[at+1] != closer {
+				c.Res.fail("c04-comment-field", fmt.Sprintf("the comment is not directly before the %q that closes the %s list (it is followed by %v):\n%s", closer, sh.name, seq[at+1:min(at+3, len(seq))], out), in)
+			}
+		}
+	}
+}
+
 func c04Prop(c *Ctx) {
 	c.Res.Rule = "hand corpus + $GOROOT/src sample; per source one saturating assignment (a block comment on every point of every node) and 3 random assignments of uniquely numbered block/line comments and newline decorations to (node, point) pairs at densities 1/2, 1/5, 1/12; non-trivial = distinct (source, seed, density, kinds) with at least one comment placed"
 	srcs := oracleSources(c, c.N(14), 6000)
@@ -313,6 +385,7 @@ func c04Prop(c *Ctx) {
 	c.Res.Notes = append(c.Res.Notes, fmt.Sprintf("%d distinct (kind, point) pairs occur in the sources of this run", len(ph)))
 	// regression input of the fixed finding first-emission-newline: "\n" first in File.Decs.Start
 	c04KnownStartNewline(c)
+	c04CommentFieldMultiline(c)
 }
 
 func c04KnownStartNewline(c *Ctx) {
@@ -332,6 +405,9 @@ func c04KnownStartNewline(c *Ctx) {
 func init() {
 	props["C04"] = c04Prop
 	replays["C04"] = func(c *Ctx, raw json.RawMessage) (bool, string) {
+		if handled, fails, msg := replayFixed(c, raw, c04CommentFieldMultiline); handled {
+			return fails, msg
+		}
 		var in c04Input
 		if err := json.Unmarshal(raw, &in); err != nil || in.Src == "" {
 			return false, "not a C04 generated input"
